@@ -234,6 +234,10 @@ func init() {
 				for _, s := range srcs {
 					key += "\x00" + s.Name + "\x00" + s.Input
 				}
+				if cr := m.cachedImport(key); cr != nil {
+					res = cr.root
+					return
+				}
 				var sc *ast.Schema
 				var err error
 				if c, ok := schemaCache.Load(key); ok {
@@ -268,8 +272,24 @@ func init() {
 		return func(m *Machine, a []Value) Value {
 			var res Value
 			m.safeNative("LoadQuery", func() {
-				ex := m.newExporter()
-				sc := ex.Export(a[0], reflect.TypeOf((*ast.Schema)(nil))).Interface().(*ast.Schema)
+				var ex *Exporter
+				var sc *ast.Schema
+				reg := m.regionOf(a[0])
+				if reg != nil && m.ex.exportCache[reg] != nil {
+					// the schema has not been written to since it was exported: reuse the native copy
+					c := m.ex.exportCache[reg]
+					ex, sc = c.ex, c.native.(*ast.Schema)
+					ex.m = m
+				} else {
+					ex = m.newExporter()
+					sc = ex.Export(a[0], reflect.TypeOf((*ast.Schema)(nil))).Interface().(*ast.Schema)
+					if reg != nil {
+						if m.ex.exportCache == nil {
+							m.ex.exportCache = map[*region]*exportCache{}
+						}
+						m.ex.exportCache[reg] = &exportCache{native: sc, ex: ex}
+					}
+				}
 				q := m.concStr(a[1], "query string")
 				doc, errs := gqlparser.LoadQuery(sc, q)
 				im := m.importerSeeded(ex)
